@@ -942,8 +942,8 @@ def write_evidence(prop, tier, seed, level, coverage, assumptions, wall, nviol):
 # --------------------------------------------------------------------------- C18
 
 C18_PLAN = {
-    "quick": dict(runs=16000, big_inputs=5, depth_chains=256, depth_max=300, scheds=4, cold=128, selftest=192, miri_light=4, miri_full=2, miri_conv=16, shadow=4000, xl_den=4000, budget=900),
-    "thorough": dict(runs=750000, big_inputs=40, depth_chains=4096, depth_max=1100, scheds=4, cold=2048, selftest=2048, miri_light=192, miri_full=48, miri_conv=192, miri_fit=32, shadow=300000, xl_den=1500, budget=7200),
+    "quick": dict(runs=16000, storm_words=4000000, big_inputs=5, depth_chains=256, depth_max=300, scheds=4, cold=128, selftest=192, miri_light=4, miri_full=2, miri_conv=16, shadow=4000, xl_den=4000, budget=900),
+    "thorough": dict(runs=750000, storm_words=300000000, big_inputs=40, depth_chains=4096, depth_max=1100, scheds=4, cold=2048, selftest=2048, miri_light=192, miri_full=48, miri_conv=192, miri_fit=32, shadow=300000, xl_den=1500, budget=7200),
 }
 
 
@@ -1281,6 +1281,23 @@ def check_c18(tier, seed):
         db.cleanup()
         fired["nested_parse_chain"] = depth_stats["chains"]
         log(f"[C18] nesting depth ({time.time() - t0:.0f}s): {depth_stats['chains']} chains of nested parses, deepest {depth_stats['deepest']}, {depth_stats['parses']} parses")
+    # ---- a storm of distinct unknown words on one parser per worker: the history axis in its cheapest
+    # form (tables that fill up, spill, evict, or take a fingerprint for the key)
+    storm_stats = {"words": 0, "parsers": 0}
+    if not sim_limited:
+        sbt = Batch("c18storm")
+        for w in range(W):
+            sbt.spawn(["storm", "--seed", str(seed * 13 + salt), "--words", str(plan["storm_words"]), "--worker", str(w)], f"w{w}")
+        souts_, shung_ = sbt.wait(plan["budget"])
+        for tag, args, idx in shung_:
+            die(f"storm worker {tag} did not finish")
+        for o in souts_:
+            storm_stats["words"] += o["words"]
+            storm_stats["parsers"] += 1
+            raws.extend(o["violations"])
+        sbt.cleanup()
+        fired["unknown_word_storm"] = storm_stats["words"]
+        log(f"[C18] word storm ({time.time() - t0:.0f}s): {storm_stats['words']} distinct unknown words on {storm_stats['parsers']} parsers, probe recipes re-read every 64 words")
     # ---- CPU count / affinity on big inputs
     aff_viol, aff_stats = (0, {"skipped": "simulated scheduling is blocked"}) if sim_limited else affinity_phase(seed, plan["big_inputs"])
     log(f"[C18] cpu affinity ({time.time() - t0:.0f}s): {aff_stats}")
@@ -1450,6 +1467,7 @@ def check_c18(tier, seed):
         "reference_phases_with_other_os_thread_pass": agg["thread_passes"] + sum(o.get("thread_passes", 0) for o in cold_outs),
         "nesting_depth": depth_stats,
         "cpu_affinity": aff_stats,
+        "unknown_word_storm": storm_stats,
         "hash_seeds": agg["hash_seeds"],
         "seamed_maps_created": agg["maps_created"],
         "miri": miri,
